@@ -15,6 +15,7 @@
 #include <sys/wait.h>
 #include <stdint.h>
 #include "libMultiMarkdown.h"
+#include "transclude.h"
 #include "d_string.h"
 #define MAXT 3
 #define MAXP (1 << 18)
@@ -72,6 +73,10 @@ static const job JOBS[] = {
 	{ "epub-dir-a", "Title: EA\n\n# H\n\n![i](i.png) ![p](photo.jpeg) text\n", XD, FORMAT_EPUB, 0 },
 	{ "epub-dir-b", "Title: EB\n\n![d](deep.gif) other\n", XD, FORMAT_EPUB, 0 },
 	{ "odt-dir-a", "Title: OA\n\n![i](i.png) text\n", XD, FORMAT_ODT, 0 },
+	/* transclusion itself (the CLI and editors call it before converting) */
+	{ "trans-dir-a", "A {{t.txt}} and {{w.tex}} and {{t.txt}} end\n", XD, FORMAT_HTML, 0 },
+	{ "trans-dir-a2", "A2 {{w.tex}} then {{t.txt}} {{missing.txt}}\n", XD, FORMAT_HTML, 0 },
+	{ "trans-dir-b", "B {{t2.txt}} end\n", XD, FORMAT_HTML, 0 },
 	{ "tiny-a", "# Head A\n\n[x] *t*\n\n[x]: http://u/\n", XD, FORMAT_HTML, 0 },
 	{ "tiny-b", "Other B\n=======\n\n| a |\n|---|\n| b |\n[Cap]\n\nc[^n]\n\n[^n]: n\n", XD, FORMAT_LATEX, 0 },
 	{ "tiny-c", "## C [lab]\n\nterm\n: def \"q\"\n", XD, FORMAT_FODT, 0 },
@@ -119,9 +124,12 @@ static void run_job(int t, int k) {
 	if (!strcmp(j->name, "meta")) { char *v = mmd_string_metavalue_for_key(j->src, "title"); char *ks = mmd_string_metadata_keys(j->src); if (v) { extra ^= fnv(v, strlen(v)); free(v); } if (ks) { extra ^= fnv(ks, strlen(ks)) * 3; free(ks); } }
 	char dirbuf[600]; const char *dir = NULL, *vd = getenv("VERIF_DIR");
 	if (strstr(j->name, "-dir-")) { snprintf(dirbuf, sizeof dirbuf, "%s/fixtures/assets%s", vd ? vd : "/verif", strstr(j->name, "-dir-b") ? "/sub" : ""); dir = dirbuf; }
+	DString *tsrc = NULL;
+	if (!strncmp(j->name, "trans-", 6)) { char sp[700]; snprintf(sp, sizeof sp, "%s/top.txt", dir); tsrc = d_string_new(j->src); mmd_transclude_source(tsrc, dir, sp, FORMAT_HTML, NULL, NULL); src = tsrc->str; extra ^= fnv(tsrc->str, tsrc->currentStringLength) * 7; }
 	DString *d = mmd_string_convert_to_data(src, j->ext, j->fmt, 0, dir);
 	outhash[t][k] = d ? out_hash(j, d) ^ (extra * 0x9E3779B97F4A7C15ULL) : 0;
 	if (pre) d_string_free(pre, true);
+	if (tsrc) d_string_free(tsrc, true);
 	anchors_ok[t][k] = (j->random && d) ? anchors_consistent(d->str) : 1;
 	if (d) d_string_free(d, true);
 }
